@@ -819,7 +819,10 @@ class Engine:
                 if isinstance(old, tuple) and old[0] == 'adt' and len(old[4]) == 1:
                     new = ('adt', old[1], old[2], old[3], [new])
                 self.store(a[1], a[2], new, s)
-                s.events.append(('write', t['atys'][0], 'assign-op', new, (fn['path'], t['sp']['line']), ''))
+                fsteps = [st_ for st_ in a[2] if st_[0] == 'f']
+                if fsteps:
+                    s.events.append(('write', fsteps[-1][3], fsteps[-1][2], new, (fn['path'], t['sp']['line']),
+                                     '.'.join(st_[2] for st_ in fsteps)))
             return one(UNIT)
         m = re.match(r'core::num::<impl (u\d+|usize)>::(saturating_sub|saturating_add|wrapping_add|wrapping_sub|checked_sub|checked_add|min|max|pow|abs_diff)$', c)
         if m:
@@ -866,6 +869,18 @@ class Engine:
         if c.startswith('core::fmt::') or c.startswith('<core::fmt::') or c.startswith('alloc::fmt::format'):
             return one(('term', 'fmt', []))
         return None
+
+    def default_of(self, ty):
+        if ty in INT_W:
+            return C(0)
+        if ty.startswith('core::option::Option<'):
+            return ('adt', 'core::option::Option', 0, 'None', [])
+        a = self.p.adts.get(ty)
+        if a and not a['enum'] and len(a['variants'][0]['fields']) == 1:
+            has_derived_default = any(im['adt'] == ty and im['trait'] == 'core::default::Default' and im['derived'] for im in self.p.impls)
+            if has_derived_default:
+                return ('adt', ty, 0, a['variants'][0]['name'], [self.default_of(a['variants'][0]['fields'][0]['ty'])])
+        return ('term', 'default:' + ty.split('::')[-1], [])
 
     def strip(self, v, s):
         """unwrap single-field newtypes (Sequence(x) -> x) for comparisons / arithmetic"""
@@ -937,7 +952,7 @@ class Engine:
                 if good:
                     return one(v[4][0])
                 ga = t.get('gargs', [''])[0]
-                return one(C(0) if ga in INT_W else ('term', 'default:' + ga.split('::')[-1], []))
+                return one(self.default_of(ga))
             return one(('term', 'unwrap_or_default', [v]))
         if name == 'unwrap_or':
             if known:
